@@ -341,14 +341,14 @@ def ob_buildsystem_files():
     return h
 
 
-def ob_targets_vs_ninja(dim):
+def ob_targets_vs_ninja(dim, full=False):
     """intro-targets.json / intro-installed.json against the build.ninja of the SAME configuration (real Interpreter, real NinjaBackend.generate, real
     mintro.list_targets / list_installed on a generated project without a compiled language - harness/proj.py): every target's `filename` entries are exactly
     the outputs its build statement produces, its sources + generated sources are exactly the explicit inputs that statement consumes, and exactly the installed
     outputs are listed with the destination install uses"""
     def h():
         from harness import proj as PJ
-        pr, c, g = PJ.run_project(dim)
+        pr, c, g = PJ.run_project(dim, full)
         by_name = {}
         for e in c.targets:
             check(e['name'] not in by_name, 'every target is listed once'); by_name[e['name']] = e
@@ -438,7 +438,7 @@ def obligations(tier):
     out.append(Obligation('buildoptions', ob_options(), dict(options='project int/bool, system combo, builtin bool; symbolic values'), labels=('done',)))
     out.append(Obligation('install-targets', ob_install_targets(), dict(real='Backend.generate_target_install, CustomTarget.install_dir_names, mintro.list_install_plan', outputs='1-3', install_dir="one for all | one per output; false | plain string | get_option('bindir') | get_option('datadir')"), labels=('installed', 'nothing')))
     for dim in (('inputs',) if tier == 'quick' else ('inputs', 'consumers')):
-        out.append(Obligation('targets-vs-ninja[%s]' % dim, ob_targets_vs_ninja(dim), dict(real='Interpreter.run + NinjaBackend.generate + mintro.list_targets / list_installed on a generated project without a compiled language',
+        out.append(Obligation('targets-vs-ninja[%s]' % dim, ob_targets_vs_ninja(dim, tier != 'quick'), dict(real='Interpreter.run + NinjaBackend.generate + mintro.list_targets / list_installed on a generated project without a compiled language',
                               targets='3 custom targets (1-2 outputs) consuming a source file / a whole target / one indexed output / a configure_file output / a generator list; alias / run target; subdirectory',
                               symbolic='build_by_default x2, build_always_stale, install, the index into a multi-output target', varies=dim), labels=('done', 'installed') + (('generator',) if dim == 'inputs' else ()), max_paths=2000000, path_timeout=300))
     out.append(Obligation('buildsystem-files', ob_buildsystem_files(), dict(real='Interpreter (subdir, subproject), get_build_def_files, mintro.list_buildsystem_files', guards='4 symbolic conditions: two subdirs (one with a nested subdir), one subproject'), labels=('done',)))
